@@ -11,6 +11,7 @@ mod fam_lower;
 mod gen_helpers;
 mod fam_helpers;
 mod fam_sem;
+mod fam_types;
 
 use ctx::Ctx;
 
@@ -50,6 +51,7 @@ fn main() {
         "lower" => fam_lower::run(&mut ctx),
         "helpers" => fam_helpers::run(&mut ctx),
         "sem" => fam_sem::run(&mut ctx),
+        "types" => fam_types::run(&mut ctx),
         x => {
             eprintln!("unknown family {x}");
             std::process::exit(2);
